@@ -1,7 +1,7 @@
 (* Props/C17.v — property C17: date-time / duration / time-of-day arithmetic obeys its inverse laws.
    Statements about the model (Model/Time.v) closed by `exact`; Print Assumptions at the end. *)
 From Coq Require Import ZArith List Bool.
-From Tevec Require Import Base.Prelude Spec.Calendar Model.Time Proofs.Time Proofs.TimeCal Proofs.Calendar.
+From Tevec Require Import Base.Prelude Spec.Calendar Model.Time Proofs.Time Proofs.TimeCal Proofs.Calendar Proofs.TimeCal2.
 Local Open Scope Z_scope.
 
 (* ---- (1) (x + d) - d = x and (x - d) + d = x for a month-free d, outside known-finding class 1 ------- *)
@@ -177,6 +177,59 @@ Corollary C17_trunc_months_executable_calendar :
         /\ cr_sod cy = 0 /\ cr_nanos cy = 0.
 Proof. exact (dt_trunc_months_fields calendar_lawful). Qed.
 
+(* ---- (7) order: days_of_civil is monotone; the month-truncated instant is the greatest period start <= x ---- *)
+(* Hinnant's days_of_civil is strictly monotone for the lexicographic order (year, month, day) on valid dates,
+   for every year (negative ones included), and reflects it: an order isomorphism onto the day numbers *)
+Theorem C17_days_of_civil_monotone :
+  forall a b, valid_civil a -> valid_civil b -> civil_lt a b -> days_of_civil a < days_of_civil b.
+Proof. exact days_of_civil_mono. Qed.
+Theorem C17_days_of_civil_order_iso :
+  forall a b, valid_civil a -> valid_civil b -> (days_of_civil a < days_of_civil b <-> civil_lt a b).
+Proof. exact days_of_civil_lt_iff. Qed.
+Theorem C17_civil_of_days_monotone :
+  forall z1 z2, z1 < z2 -> civil_lt (civil_of_days z1) (civil_of_days z2).
+Proof. exact civil_of_days_mono. Qed.
+(* the first of the next month is this month's first plus the length of the month *)
+Theorem C17_month_lengths :
+  forall t, month_start (t + 1) = month_start t + days_in_month (t / 12) (t mod 12 + 1).
+Proof. exact month_start_succ. Qed.
+(* months dividing 12, all four units, pre-1970 instants included: the truncated instant is not after x ... *)
+Theorem C17_month_trunc_le :
+  forall u x m y, x <> NaT -> divides12 m -> dt_trunc u x (mktd m 0) = Ok y -> y <> NaT ->
+    instant_ns u y <= instant_ns u x /\ y <= x.
+Proof. exact month_trunc_le. Qed.
+(* ... it is the first instant of a year-aligned period of m months, and the greatest such instant <= x ... *)
+Theorem C17_month_trunc_greatest :
+  forall u x m y, x <> NaT -> divides12 m -> dt_trunc u x (mktd m 0) = Ok y -> y <> NaT ->
+    is_period_start m (instant_ns u y)
+    /\ instant_ns u y <= instant_ns u x
+    /\ (forall T, is_period_start m T -> T <= instant_ns u x -> T <= instant_ns u y).
+Proof. exact month_trunc_greatest. Qed.
+(* ... in closed form: 00:00:00.0 on the first day of the period's first month, and x lies before the first
+   instant of the next period (the month / quarter / half-year / year containing x) *)
+Theorem C17_month_trunc_containing_period :
+  forall u x m y, x <> NaT -> divides12 m -> dt_trunc u x (mktd m 0) = Ok y -> y <> NaT ->
+    exists c yr mo dd, as_cr u x = Some c /\ cr_civil c = (yr, mo, dd)
+      /\ instant_ns u y = days_of_civil (yr, period_start mo m, 1) * DAY_NS
+      /\ instant_ns u y <= instant_ns u x < days_of_civil (add_months (yr, period_start mo m, 1) m) * DAY_NS.
+Proof. exact month_trunc_next. Qed.
+(* month-free d > 0, also when d is NOT a whole number of units: never after x, less than d + one unit before x *)
+Theorem C17_trunc_monthfree_le :
+  forall u x d y, x <> NaT -> td_months d = 0 -> 0 < td_ns d -> dt_trunc u x d = Ok y -> y <> NaT ->
+    instant_ns u y <= td_ns d * (instant_ns u x / td_ns d) <= instant_ns u x
+    /\ instant_ns u x < instant_ns u y + unit_ns u + td_ns d
+    /\ y <= x.
+Proof. exact dt_trunc_monthfree_le. Qed.
+(* known-finding class 1 is tight: EVERY member of the class fails, always by exactly one unit *)
+Theorem C17_add_sub_class1_loses_one_unit :
+  forall u x d y z, x <> NaT -> td_months d = 0 -> kf_subunit u d = true ->
+    dt_add u x d = Ok y -> y <> NaT -> dt_sub u y d = Ok z -> z <> NaT -> z = x - 1.
+Proof. exact add_sub_class1_loses_one_unit. Qed.
+Corollary C17_add_sub_class1_always_fails :
+  forall u x d y z, x <> NaT -> td_months d = 0 -> kf_subunit u d = true ->
+    dt_add u x d = Ok y -> y <> NaT -> dt_sub u y d = Ok z -> z <> NaT -> z <> x.
+Proof. exact add_sub_class1_always_fails. Qed.
+
 (* ---- non-vacuity ---------------------------------------------------------------------------------------------- *)
 Example C17_ex_add_sub :
   dt_add Sec 0 (mktd 0 90000000000) = Ok 90 /\ dt_sub Sec 90 (mktd 0 90000000000) = Ok 0
@@ -205,6 +258,29 @@ Example C17_ex_trunc :
   /\ dt_trunc Nano (-1) (mktd 0 10) = Ok (-10).
 Proof. vm_compute. auto. Qed.
 
+Example C17_ex_order :
+  (* 1 BC-12-31 < 0001-01-01 (year 0 = 1 BC), leap day 2000-02-29 < 2000-03-01 *)
+  valid_civil (0, 12, 31) /\ valid_civil (1, 1, 1) /\ civil_lt (0, 12, 31) (1, 1, 1)
+  /\ days_of_civil (0, 12, 31) = -719163 /\ days_of_civil (1, 1, 1) = -719162
+  /\ days_of_civil (2000, 3, 1) = days_of_civil (2000, 2, 29) + 1.
+Proof. vm_compute. intuition discriminate. Qed.
+Example C17_ex_trunc_pre_epoch :
+  (* 1969-11-15 12:00:00 = -4017600 s: quarter 1969-10-01 = -7948800, next quarter 1970-01-01 = 0 *)
+  dt_trunc Sec (-4017600) (mktd 3 0) = Ok (-7948800)
+  /\ is_period_start 3 (instant_ns Sec (-7948800)) /\ is_period_start 3 0
+  /\ days_of_civil (add_months (1969, 10, 1) 3) = 0
+  (* year 0 (year_ce arm for BCE): -62162208000 = 0000-02-29 00:00:00, half-year 0000-01-01 *)
+  /\ dt_trunc Sec (-62162208000) (mktd 6 0) = Ok (-62167219200)
+  (* d = 1.5 s on DateTime<Second>: not a whole number of units *)
+  /\ dt_trunc Sec 10 (mktd 0 1500000000) = Ok 9 /\ kf_subunit Sec (mktd 0 1500000000) = true
+  /\ dt_add Sec 10 (mktd 0 1500000000) = Ok 11 /\ dt_sub Sec 11 (mktd 0 1500000000) = Ok 9.
+Proof.
+  split; [vm_compute; reflexivity|].
+  split; [exists 1969, 3; vm_compute; intuition discriminate|].
+  split; [exists 1970, 0; vm_compute; intuition discriminate|].
+  vm_compute. intuition.
+Qed.
+
 Print Assumptions C17_add_sub_inverse.
 Print Assumptions C17_diff_add_inverse.
 Print Assumptions C17_td_scale_distributes.
@@ -212,3 +288,10 @@ Print Assumptions C17_month_add_executable_calendar.
 Print Assumptions C17_time_ctor_getters_nano.
 Print Assumptions C17_trunc_greatest_multiple.
 Print Assumptions C17_trunc_months_executable_calendar.
+Print Assumptions C17_days_of_civil_order_iso.
+Print Assumptions C17_civil_of_days_monotone.
+Print Assumptions C17_month_trunc_le.
+Print Assumptions C17_month_trunc_greatest.
+Print Assumptions C17_month_trunc_containing_period.
+Print Assumptions C17_trunc_monthfree_le.
+Print Assumptions C17_add_sub_class1_loses_one_unit.
